@@ -1478,14 +1478,23 @@ def compile_template(
 
 def format_template(source: str, template_match: NamedTuple, **callables) -> str:
     template_match_asdict = template_match._asdict() if hasattr(template_match, "_asdict") else {}
-    for name, value in template_match_asdict.items():
-        source = source.replace("{{" + name + "}}", unparse(value))
 
     # It's ok that some of the template_match isn't used, just like str.format()
     # may not use all of the arguments.
 
-    if unfilled_wildcards := re.findall(r"\{\{\w+\}\}", source):
+    unfilled_wildcards = [
+        f"{{{{{name}}}}}"
+        for name in re.findall(r"\{\{(\w+)\}\}", source)
+        if name not in template_match_asdict
+    ]
+    if unfilled_wildcards:
         raise ValueError(f"Unfilled wildcards found in source: {unfilled_wildcards}")
+
+    # All wildcards are filled in one pass, so that code that is filled in is not searched for
+    # wildcards, in case it contains something like "{{name}}" itself.
+    source = re.sub(
+        r"\{\{(\w+)\}\}", lambda match: unparse(template_match_asdict[match.group(1)]), source
+    )
 
     for callable_slot in re.finditer(r"\{\{\w+\((\w+,?)+\)\}\}", source):
         callable_slot_text = callable_slot.group()
